@@ -1392,9 +1392,74 @@ func assignTarget(comps []*component, fi *fileInfo, pos token.Pos) *component {
 	return nil
 }
 
+// ---------------------------------------------------------------- the validators of the specification package
+
+func isValidatorSignature(fd *ast.FuncDecl) bool {
+	if fd.Recv != nil || fd.Type.Results == nil || len(fd.Type.Results.List) != 1 {
+		return false
+	}
+	if !isIdent(fd.Type.Results.List[0].Type, "error") {
+		return false
+	}
+	types := []ast.Expr{}
+	for _, f := range fd.Type.Params.List {
+		n := len(f.Names)
+		if n == 0 {
+			n = 1
+		}
+		for i := 0; i < n; i++ {
+			types = append(types, f.Type)
+		}
+	}
+	if len(types) != 2 || !isIdent(types[0], "string") {
+		return false
+	}
+	it, ok := types[1].(*ast.InterfaceType)
+	return ok && (it.Methods == nil || len(it.Methods.List) == 0)
+}
+
+// findValidators: every exported SpecValidator-shaped function of the specification package, recognised or hard error.
+func findValidators() *component {
+	var sp *pkgInfo
+	for ip, p := range pkgs {
+		if isSpecPkg(ip) {
+			sp = p
+		}
+	}
+	if sp == nil {
+		die(token.NoPos, "package %s not found", specPkgSuffix)
+	}
+	c := &component{Name: sp.dir + ".<validators>", Pkg: sp.dir, Func: "<validators>", Kind: "other", Variant: "all", pkg: sp}
+	names := []string{}
+	for n, f := range sp.funcs {
+		if ast.IsExported(n) && isValidatorSignature(f.decl) {
+			names = append(names, n)
+		}
+	}
+	sort.Strings(names)
+	for _, n := range names {
+		f := sp.funcs[n]
+		var k vkind
+		if pk, ok := primitives[n]; ok {
+			k = vkind{K: pk, Name: n}
+		} else if bk, ok := recogniseBounds(f); ok {
+			bk.Name = n
+			k = bk
+		} else {
+			die(f.decl.Pos(), "validator %s of the specification package has a body this translator does not recognise", n)
+		}
+		c.Specs = append(c.Specs, spec{Key: n, Validator: k, Default: value{Kind: "nil"}, Optional: true,
+			Line: fset.Position(f.decl.Pos()).Line, pos: f.decl.Pos()})
+		if c.File == "" {
+			c.File = f.file.rel
+		}
+	}
+	return c
+}
+
 // ---------------------------------------------------------------- output
 
-func writeCoq(path string, comps []*component) {
+func writeCoq(path string, comps []*component, vals *component) {
 	var b strings.Builder
 	b.WriteString("(* GENERATED by harness/astfacts from the Go source of the repository on this run -- do not edit *)\n")
 	b.WriteString("From Coq Require Import List ZArith QArith String Bool.\n")
@@ -1443,7 +1508,16 @@ func writeCoq(path string, comps []*component) {
 		}
 		b.WriteString("].\n\n")
 	}
-	fmt.Fprintf(&b, "Definition all_components : list component := [%s].\n", strings.Join(names, "; "))
+	fmt.Fprintf(&b, "Definition all_components : list component := [%s].\n\n", strings.Join(names, "; "))
+	b.WriteString("(* every exported validator of internal/pkg/parameters/specification, as recognised *)\n")
+	b.WriteString("Definition all_validators : list (string * vkind) :=\n  [")
+	for j, s := range vals.Specs {
+		if j > 0 {
+			b.WriteString(";\n   ")
+		}
+		fmt.Fprintf(&b, "(%s, %s)", coqString(s.pos, s.Key), s.Validator.coq(s.pos))
+	}
+	b.WriteString("].\n")
 	if err := os.WriteFile(path, []byte(b.String()), 0644); err != nil {
 		fmt.Fprintln(os.Stderr, "astfacts:", err)
 		os.Exit(2)
@@ -1468,10 +1542,11 @@ func main() {
 		die(token.NoPos, "no specification table found anywhere in the repository")
 	}
 	findSites(comps)
+	vals := findValidators()
 	if *coq != "" {
-		writeCoq(*coq, comps)
+		writeCoq(*coq, comps, vals)
 	}
-	out := map[string]interface{}{"module": module, "components": comps}
+	out := map[string]interface{}{"module": module, "components": comps, "validators": vals}
 	bs, _ := json.MarshalIndent(out, "", " ")
 	if *js != "" {
 		if err := os.WriteFile(*js, bs, 0644); err != nil {
